@@ -235,7 +235,7 @@ func getNextLinebox(context *layoutContext, linebox *bo.LineBox, positionY, bott
 		newWaitingFloat, waitingFloatResumeAt := floatLayout(context, waitingFloat_, containingBlock, absoluteBoxes, fixedBoxes, bottomSpace, nil)
 		floatChildren = append(floatChildren, newWaitingFloat)
 		if waitingFloatResumeAt != nil {
-			context.brokenOutOfFlow[newWaitingFloat] = brokenBox{waitingFloat_, containingBlock_, waitingFloatResumeAt}
+			context.brokenOutOfFlow[newWaitingFloat] = context.newBrokenBox(waitingFloat_, containingBlock_, waitingFloatResumeAt)
 		}
 	}
 	line.Children = append(line.Children, floatChildren...)
@@ -1105,7 +1105,7 @@ func inlineOutOfFlowLayout(context *layoutContext, box Box, containingBlock Box,
 				bottomSpace, nil)
 
 			if floatResumeAt != nil {
-				context.brokenOutOfFlow[child_] = brokenBox{child_, containingBlock, floatResumeAt}
+				context.brokenOutOfFlow[child_] = context.newBrokenBox(child_, containingBlock, floatResumeAt)
 			}
 			*waitingChildren = append(*waitingChildren, indexedBoxC{index: index, box: newChild, child: child_})
 			child_ = newChild
